@@ -192,9 +192,9 @@ func init() {
 
 // challengeFeedingRoots: functions whose results feed a Fiat-Shamir challenge.
 func challengeFeedingRoots(P *Program) []*ssa.Function {
-	keys := []string{kProofDCC, kProofUCC, "gabi.(ProofList).challengeContributions", "gabi.(*DisclosureProofBuilder).Commit",
+	keys := []string{kProofDCC, kProofUCC, "gabi.challengeContributions", "gabi.(*DisclosureProofBuilder).Commit",
 		"gabi.(*CredentialBuilder).Commit", "gabi.(ProofBuilderList).ChallengeWithRandomizers", "gabi.KeyshareUserCommitmentRequest",
-		"gabi.KeyshareResponse", "gabi.keyshareUserCommitmentsHash", "gabi.createChallenge", "gabi.(*ProofS).Verify", "gabi.(*Issuer).proveSignature",
+		"gabi.KeyshareResponse", "gabi.keyshareUserCommitmentsHash", "gabi.createChallenge", "gabi.(*ProofS).Verify", "gabi.proveSignature",
 		"keyproof.(*ValidKeyProofStructure).BuildProof", "keyproof.(*ValidKeyProofStructure).VerifyProof"}
 	var out []*ssa.Function
 	for _, k := range keys {
